@@ -274,7 +274,7 @@ CHECKS = {
              'probability exactly p_k; DEPOLARIZE1 as three independent mechanisms; the bulk sampler\'s X/Y/Z_ERROR and DEPOLARIZE1/2 routines '
              'regenerated from source flip the documented Paulis, p = 1 + rng() % K mapping bijectively onto the non-identity Paulis '
              '(GenProofs_FrameNoise); PAULI_CHANNEL argument decoding and the conditional-probability expression (GenProofs_PauliChan); '
-             'HERALDED_ERASE bit usage: every erasure uses two generator bits no other erasure uses (GenProofs_Herald). Tie H (exact): for probabilities top/256 and '
+             'HERALDED_ERASE bit usage: every erasure uses two generator bits no other erasure uses (GenProofs_Herald); the E / ELSE_CORRELATED_ERROR step of both simulators regenerated from source is the modelled chain rule (GenProofs_ElseChain). Tie H (exact): for probabilities top/256 and '
              'complements the extracted brb_exact reproduces the words biased_randomize_bits writes from the same mt19937_64 words. '
              'Statistical ties (fixed seeds): bit / lane / adjacent-pair / position frequencies over the grid {0, 1e-4, 0.0199, 0.02, 0.3, '
              '0.5, 0.51, 0.75, 0.9375, 1, ...}; hit statistics of sample_hit_indices; for every noise instruction the exact outcome pmf '
